@@ -132,7 +132,7 @@ func ruleBrkAttempted(w *World, r *Report) {
 				if ret.Block() == call.Block() && posOfInstr(ret).i < posOfInstr(call).i {
 					return
 				}
-				v := ret.Results[0]
+				v := resolveSpill(ret.Results[0])
 				if b, ok := isConstBool(v); ok {
 					if !b {
 						bad, badAt = "returns false after calling the thunk", ret
